@@ -34,6 +34,29 @@ pub fn run(cfg: &Cfg) -> Report {
                     st.violation("C10", &format!("malformed-trace@{sig}"), &format!("step {} at {}: {e}; trace {:?}", s.idx, c.world.peers[s.peer].name, proj::render_trace(v)), case, json!({"step": s.idx, "history": history_sample(c, 40)}));
                 }
             }
+            // the iterations a stream fold really ran (guarded event sink) are exactly the iterations its
+            // fold entry records: a visited value without a lore entry means that the entries its iteration
+            // produced are covered by no iteration range (a gap the structure alone cannot show, because
+            // they then look like siblings of the fold), an entry without a visit is a range nobody ran
+            if matches!(s.class(), crate::invoke::CodeClass::Success) && !s.out.events.is_empty() {
+                let m = super::streams::build(&s.out.events);
+                let fold_states: Vec<Vec<u64>> = states.iter().filter_map(|x| if let proj::St::Fold(l) = x { Some(l.iter().map(|e| e.0).collect()) } else { None }).collect();
+                if m.folds.len() == fold_states.len() && m.folds.iter().all(|f| f.ended) {
+                    for (f, lore) in m.folds.iter().zip(&fold_states) {
+                        st.inc("fold_entries_compared_with_the_iterations_run", 1);
+                        let mut visited: Vec<u64> = f.visited.iter().map(|v| v.0 as u64).collect();
+                        let mut recorded = lore.clone();
+                        visited.sort();
+                        recorded.sort();
+                        if visited != recorded {
+                            let sig = if visited.iter().any(|v| !recorded.contains(v)) { "iteration-without-fold-range" } else { "fold-range-without-iteration" };
+                            st.violation("C10", &format!("malformed-trace@{sig}"), &format!("step {} at {}: the fold over {} ran iterations for the values at {:?} but its fold entry records iterations for {:?}; trace {:?}", s.idx, c.world.peers[s.peer].name, f.name, visited, recorded, proj::render_trace(v)), case, json!({"step": s.idx, "history": history_sample(c, 40)}));
+                        }
+                    }
+                } else {
+                    st.inc("runs_whose_fold_entries_could_not_be_paired_with_fold_events", 1);
+                }
+            }
         }
     });
     Report {
